@@ -48,6 +48,9 @@ def type_specs(tier):
     specs += [sp for sp in tg.constrained_specs(routes=("cls",)) if sp[1] in JSON_ORIGINS
               and not any("inf" in b for _, b in sp[2])]      # infinities are not JSON values
     # InfinityFloat / AbnormalFloat enumerate infinities (not JSON values), NormalFloat is built with a negation
+    # constraint values that are not JSON values themselves, inside a list
+    specs += [("r", "date", (("enum", "[date(2020,1,2), date(2020,1,3)]"),), "cls"),
+              ("r", "Decimal", (("enum", "[Decimal('1.5'), Decimal('2')]"),), "cls")]
     specs += [sp for sp in tg.SHIPPED if sp[1] not in ("types.InfinityFloat", "types.AbnormalFloat", "types.NormalFloat")]
     specs += [sp for sp in tg.literal_specs() if "b'x'" not in sp[1]]
     elems = [e for e in (tg.REP_ELEMS if tier == "thorough" else tg.REP_ELEMS_Q) if e != ("t", "Any") and e != ("t", "Unreg")]
@@ -61,7 +64,9 @@ def type_specs(tier):
 CLASS_OPTIONS = ["", "addition=True", "addition=False", "addition=int", "case_insensitive=True", "mode='r'", "mode='w'",
                  "mode='a'", "addition=False, mode='w'", "case_insensitive=True, addition=True",
                  # defaults that the parser does not fill in are not required of its output
-                 "no_default=True", "defer_default=True", "ignore_required=True"]
+                 "no_default=True", "defer_default=True", "ignore_required=True",
+                 # the type of the extra keys given as an annotation, not as a class
+                 "addition=List[int]"]
 
 
 # declarations used by this check only (no reference model needed here: the structure is observed on the parser)
